@@ -140,8 +140,9 @@ pub fn render_file(fi: usize, f: &TFile) -> RenderedFile {
     for (bi, b) in f.blocks.iter().enumerate() {
         pad(&mut new, &mut old, f.outside & (1 << bi) != 0);
         let name = format!("f{fi}b{bi}");
-        // layout 4: both tags inside ONE multi-line block comment, the start tag below its first line (no content)
-        let layout = if h.block.is_none() { 0 } else { b.layout % 5 };
+        // layout 4: both tags inside ONE multi-line block comment, the start tag below its first line (no content);
+        // layout 5: the block is nested in an untouched outer block whose start tag shares a comment with this one's
+        let layout = if h.block.is_none() { 0 } else { b.layout % 6 };
         let mut classes = b.classes & 7;
         if b.lines.is_empty() || layout == 4 {
             classes &= !INSIDE;
@@ -225,6 +226,13 @@ pub fn render_file(fi: usize, f: &TFile) -> RenderedFile {
                 old.push(format!("     {}", o3[1]));
                 new.push(format!("     {}{close}", n3[2]));
                 old.push(format!("     {}{close}", o3[2]));
+            } else if layout == 5 {
+                let (o, c) = h.block.unwrap();
+                tag_line += 1;
+                for (v, tag) in [(&mut new, &tag_new), (&mut old, &tag_old)] {
+                    v.push(format!("{o} <block name=\"{name}-outer\" data-v=\"9\">"));
+                    v.push(format!("   {mb}{tag} {c}"));
+                }
             } else {
                 new.push(format!("{open}{mb}{tag_new}{close}"));
                 old.push(format!("{open}{mb}{tag_old}{close}"));
@@ -265,10 +273,20 @@ pub fn render_file(fi: usize, f: &TFile) -> RenderedFile {
             old.push(format!("{open}{end_old}{close}"));
         }
         let end_line = new.len();
+        let outer_name = format!("{name}-outer");
         extents.push(Extent { name, tag_line, end_line, selected: classes & (INSIDE | TAG) != 0, content_modified: classes & INSIDE != 0 });
+        if layout == 5 {
+            // the outer block: its content (everything after the shared comment) holds the inner block's content
+            // and end-tag line; the inner start tag is comment text, not content
+            for v in [&mut new, &mut old] {
+                v.push(format!("{open}</block>{close}"));
+            }
+            let touched = classes & (INSIDE | ENDTAG) != 0;
+            extents.push(Extent { name: outer_name, tag_line: tag_line - 1, end_line: new.len(), selected: touched, content_modified: touched });
+        }
     }
     // a file that ends in a one-line block keeps its padding: a newline-only change of that line would touch tag and content at once
-    let last_one_line = f.blocks.last().is_some_and(|b| h.block.is_some() && matches!(b.layout % 5, 2 | 4));
+    let last_one_line = f.blocks.last().is_some_and(|b| h.block.is_some() && matches!(b.layout % 6, 2 | 4 | 5));
     let tail = match f.tail % 6 {
         2 if last_one_line => 1,
         3 if last_one_line => 0,
@@ -296,7 +314,13 @@ pub fn check(c: &TouchCase, probe: &Probe) -> Verdict {
     let sb = Sandbox::new();
     sb.write("echo.lua", super::c11::ECHO_LUA.as_bytes());
     sb.write("nil.lua", super::c11::NIL_LUA.as_bytes());
-    let pair = StatePair { files: files.iter().map(|f| (f.path.clone(), Some(f.old.clone()), Some(f.new.clone()), None)).collect() };
+    let mut pair = StatePair { files: files.iter().map(|f| (f.path.clone(), Some(f.old.clone()), Some(f.new.clone()), None)).collect() };
+    if c.unified % 3 == 1 {
+        // the diff also deletes a file (its entry comes first) and empties another one
+        pair.files.push(("a_gone.py".into(), Some("# <block name=\"gone\" keep-sorted>\nb\na\n# </block>\n".into()), None, None));
+        pair.files.push(("b_emptied.py".into(), Some("x = 1\n".into()), Some(String::new()), None));
+        probe.class("diff-with-a-deleted-and-an-emptied-file");
+    }
     // the scripts are part of the old commit: write them before make_diff commits
     let mode = DiffMode { unified: c.unified % 11, kind: 0, algo: 0, renames: false };
     let diff = gitcase::make_diff(&sb, &pair, &mode);
@@ -435,7 +459,7 @@ pub fn block_strategy() -> BoxedStrategy<TBlock> {
         any::<u8>(),
         0u8..4,
         0u8..2,
-        prop_oneof![3 => Just(0u8), 1 => Just(1u8), 1 => Just(2u8), 1 => Just(3u8), 1 => Just(4u8)],
+        prop_oneof![3 => Just(0u8), 1 => Just(1u8), 1 => Just(2u8), 1 => Just(3u8), 1 => Just(4u8), 1 => Just(5u8)],
         proptest::bool::weighted(0.25),
     )
         .prop_map(|(mut rules, ls, classes, inside_kind, inside_at, tag_kind, end_kind, layout, multibyte)| {
@@ -630,7 +654,7 @@ pub fn check_sweep(c: &SweepCase, probe: &Probe) -> Verdict {
 }
 
 pub fn run(run: &mut Run) {
-    run.rule = "random: 1..3 files (js, sh, rs, py, c) x 2..7 uniquely named non-nested blocks (own-line line comments, own-line block comments, everything on one line, a start tag spread over three lines with the edited attribute on the middle one, or both tags inside one multi-line block comment) separated by 5 padding lines, each with 0..2 rules (keep-sorted, keep-unique, line-pattern, line-count, check-lua echo/nil; violating or not by chance) and a *set* of edit classes: inside (replace / insert / pure deletion / blanking of a content line), tag-only (substitute or insert a character of an attribute value, append an attribute, change the last attribute's value), end-tag-only (text after </block>, whitespace in </ block >), plus edits of padding lines (outside) and untouched blocks; a 600-byte attribute in one tag of seven; multi-byte text before the tag and inside it (an attribute in front of the edited one) in 25%; real `git diff -U0..10`; optional path arguments. Oracle: (a) `list` in diff mode = exactly the inside/tag-only blocks with is_content_modified exactly for inside; (b) diff-mode diagnostics = full-scan diagnostics restricted to the selected blocks' extents, exit status accordingly; (c) with path arguments = full scan of those files + diff-mode result of the others. enumerated sweep: every byte position of the start tag, the comment text before and after it, the content, the whole end-tag comment and the code after it in 3 one-line block templates (ASCII, multi-byte before the tag, indented) x {substitute, insert, delete}. Non-trivial (random) = a violating untouched block, a violating selected block and a tag-only block; (sweep) = a region boundary or a position where byte and character columns differ.".into();
+    run.rule = "random: 1..3 files (js, sh, rs, py, c) x 2..7 uniquely named non-nested blocks (own-line line comments, own-line block comments, everything on one line, a start tag spread over three lines with the edited attribute on the middle one, both tags inside one multi-line block comment, or nested in an untouched outer block whose start tag shares the comment) separated by 5 padding lines, each with 0..2 rules (keep-sorted, keep-unique, line-pattern, line-count, check-lua echo/nil; violating or not by chance) and a *set* of edit classes: inside (replace / insert / pure deletion / blanking of a content line), tag-only (substitute or insert a character of an attribute value, append an attribute, change the last attribute's value), end-tag-only (text after </block>, whitespace in </ block >), plus edits of padding lines (outside) and untouched blocks; a 600-byte attribute in one tag of seven; multi-byte text before the tag and inside it (an attribute in front of the edited one) in 25%; real `git diff -U0..10`, in a third of the cases with a deleted file and an emptied file in front of the others; optional path arguments. Oracle: (a) `list` in diff mode = exactly the inside/tag-only blocks with is_content_modified exactly for inside; (b) diff-mode diagnostics = full-scan diagnostics restricted to the selected blocks' extents, exit status accordingly; (c) with path arguments = full scan of those files + diff-mode result of the others. enumerated sweep: every byte position of the start tag, the comment text before and after it, the content, the whole end-tag comment and the code after it in 3 one-line block templates (ASCII, multi-byte before the tag, indented) x {substitute, insert, delete}. Non-trivial (random) = a violating untouched block, a violating selected block and a tag-only block; (sweep) = a region boundary or a position where byte and character columns differ.".into();
     run.assumptions = vec![
         "pure line deletions are only generated where no earlier net line shift exists in the file (K1 excluded by construction, counted)".into(),
         "the sweep edits the OLD line only (the parsed NEW line is always the intact template); a deletion directly adjoining the start tag's `<` or `>` is unspecified and not judged".into(),
